@@ -243,6 +243,7 @@ class Interp:
         self.clock = None          # installed by drivers that model time
         self.depth = 0
         self.hooks = {}            # function name -> python override (drivers)
+        self.extern = None         # callable(it, plain_name, args, dest_ty, func) -> value | NotImplemented
 
     # ------------------------------------------------------------------ types
     def local_type(self, body, n):
@@ -299,6 +300,7 @@ class Interp:
         if cell is None:
             cell = fr.cells[place.local] = Cell(None, f"_{place.local}")
         cur = Ref(cell, ())
+        pending_variant = 0
         for st in place.proj:
             k = st[0]
             if k == "deref":
@@ -319,8 +321,11 @@ class Interp:
                     continue
                 if isinstance(cur, _PtrSelf):
                     continue
-                cur = cur.child(st[1])
+                cur = cur.child(st[1] + pending_variant)
+                pending_variant = 0
             elif k == "downcast":
+                if st[1].startswith("variant#"):
+                    pending_variant = (int(st[1][8:]) + 1) * 1000
                 continue
             elif k == "index":
                 idx = fr.cells[st[1]].v
@@ -403,6 +408,8 @@ class Interp:
         # like eval_place_ref but grows field lists on demand
         cell = fr.cells[place.local]
         cur = Ref(cell, ())
+        if any(st[0] == "downcast" and st[1].startswith("variant#") for st in place.proj) or any(st[0] == "deref" for st in place.proj):
+            return self.eval_place_ref(fr, place)
         for st in place.proj:
             if st[0] == "field":
                 v = cur.load()
@@ -586,7 +593,7 @@ class Interp:
             if isinstance(v, (int, bool)) or is_sym(v):
                 return v
             if isinstance(v, Agg) and v.ty.startswith("{coroutine"):
-                return v.f[-1]
+                return v.f["state"]
             raise Unsupported(f"discriminant of {v!r}")
         if k == "len":
             r = self.eval_place_ref(fr, rv[1])
@@ -622,6 +629,8 @@ class Interp:
         if kind == "array":
             return Seq("array", vals, elem_type(dest_ty))
         if kind == "closure":
+            if name.startswith("{coroutine"):
+                return Agg(name, SparseF(vals))
             return Agg(name, vals)
         plain = strip_generics(name)
         ev = self.enum_variant(plain)
@@ -771,7 +780,7 @@ class Interp:
                         if isinstance(v, Enum):
                             v.idx = st[2]
                         elif isinstance(v, Agg) and v.ty.startswith("{coroutine"):
-                            v.f[-1] = st[2]
+                            v.f["state"] = st[2]
                         else:
                             ty = self.place_type(body, st[1])
                             vs = self.prog.enum_variants(ty) or STD_ENUMS.get(_last(ty), [])
@@ -896,6 +905,10 @@ class Interp:
                 self_ty, trait = inner.strip(), None
             return self.call_trait(fr, self_ty, trait, method, args, dest_ty, func)
         plain = strip_generics(func)
+        if self.extern is not None:
+            r = self.extern(self, plain, args, dest_ty, func)
+            if r is not NotImplemented:
+                return r
         m = self.models.lookup(plain)
         if m is not None:
             self.models_used.add(plain)
@@ -917,6 +930,10 @@ class Interp:
         key = f"<{st_plain} as {tr_plain}>::{method}" if trait else f"<{st_plain}>::{method}"
         if key in self.hooks:
             return self.hooks[key](self, args, dest_ty, func)
+        if self.extern is not None:
+            r = self.extern(self, key, args, dest_ty, func)
+            if r is not NotImplemented:
+                return r
         # closures: <{closure@..} as FnOnce<..>>::call_once(closure, (args,))
         if self_ty.startswith("{closure@") or self_ty.startswith("&{closure@") or self_ty.startswith("&mut {closure@"):
             return self.call_closure(args[0], args[1], dest_ty)
